@@ -118,6 +118,21 @@ func propDefs() map[string]propDef {
 			[]string{`^ensures:inv:TrackerInv.*UserOK\.1\.2$`}, []string{`^ensures:inv:TrackerInv.*UserOK\.1\.2$`}),
 		Explain: "invariant clause I7: a tracked session whose credential-disposal record has been processed (ghost g_disp, set when the record is processed, reset when a LOGIN record opens a new incarnation of the ID) is never bound — i.e. once the disposal record has been emitted (directly, or released from the hold queue by a late login) the session has left the table, so no later login can be bound to it and a reused PID binds to the next session opened by it; AuditdEvent's postcondition: CRED_DISP on a bound session <=> the session is removed",
 	}
+	m["C03"] = propDef{ID: "C03", Level: "proof",
+		Units: append(trk(
+			[]string{`^atomic:`, `^guard:`, `^lockorder:`, `^unlock-unheld`, `^ensures:inv`},
+			[]string{`^atomic:`, `^guard:`, `^lockorder:`, `^unlock-unheld`, `^ensures:inv`},
+			nil, nil,
+			[]string{`^atomic:`, `^guard:`, `^lockorder:`, `^unlock-unheld`, `^ensures:inv`},
+			[]string{`^atomic:`, `^guard:`, `^lockorder:`, `^unlock-unheld`, `^ensures:inv`}),
+			u("internal/common.(*GenericSyncMap).Load", `^guard:`, `^lockorder:`), u("internal/common.(*GenericSyncMap).Has", `^guard:`, `^lockorder:`),
+			u("internal/common.(*GenericSyncMap).Store", `^guard:`, `^lockorder:`), u("internal/common.(*GenericSyncMap).Delete", `^guard:`, `^lockorder:`),
+			u("internal/common.(*GenericSyncMap).DeleteUnsafe", `^guard:`, `^lockorder:`), u("internal/common.(*GenericSyncMap).Len", `^guard:`, `^lockorder:`)),
+		Assume: []string{"sync.Mutex provides mutual exclusion and happens-before (Go memory model)",
+			"meta-argument (not mechanised, textbook): operations that run entirely inside one critical section of one mutex are serialisable in lock-acquisition order; together with the sequential proofs of C01/C02/C04/C09 (each operation proved from an arbitrary invariant-satisfying state) every concurrent execution produces what some sequential order produces",
+			"data races outside tracker state (e.g. inside the shared json.Encoder of the EventWriter) are not covered"},
+		Explain: "lock-discipline obligations generated by the same symbolic execution: (atomic) each of the four public operations acquires the tracker's mutex exactly once and every acquisition of a map lock, every access to a guarded map and every access to a field of a user object happens while it is held; (guard) every access to GenericSyncMap.m holds that map's mtx; (lockorder) no lock is acquired while already held (the callbacks never re-enter their map), nothing is held at return; plus the invariant proofs as lock invariant of the tracker mutex",
+	}
 	m["C14"] = propDef{ID: "C14", Level: "proof",
 		Units: trk(
 			nil,
@@ -128,7 +143,7 @@ func propDefs() map[string]propDef {
 		Explain: "postcondition of the real toAuditEvent: type UserAction, component auditd, timestamp == the audit event's, auditId == its session, outcome succeeded iff Result == success, metadata action/how/object from the summary, process_args present iff the event has arguments, subjects a fresh copy equal to the login's (loop invariant of the copy loop), source and target the login's; frame: nothing reachable from the login or the audit event is modified; the same relation is asserted at every EventWriter.Write of the package",
 	}
 	m["C16"] = propDef{ID: "C16", Level: "proof",
-		Units: trk(nil, nil, nil, nil, all, all),
+		Units: trk(nil, []string{`^ensures:(added|open)`}, nil, nil, all, all),
 		Assume: []string{"time.Time.Before is a strict order on instants (assumed contract)", "the ticker of Auditd.Read fires about once per staleDataCleanupInterval (real time, not decided)"},
 		Explain: "whole-view postconditions of both cleanup operations, proved with deletion during map iteration: the surviving keys are exactly the previous keys that are correlated or not older than the cut-off (sessions), resp. whose login is not older than the cut-off (parked logins); surviving values, all user fields, the other map and the output are unchanged; TrackerInv is preserved",
 	}
